@@ -99,6 +99,11 @@ func applySchema(data json.RawMessage, resolved *jsonschema.Resolved, forOutput 
 				return nil, fmt.Errorf("unmarshaling arguments: %w", err)
 			}
 		}
+		if v == nil {
+			// data was the JSON value null, which decodes to a nil map: treat
+			// it like absent arguments, so that defaults can be applied.
+			v = make(map[string]any)
+		}
 		unmarshaled = v
 	} else {
 		if len(data) > 0 {
